@@ -380,3 +380,40 @@ func fieldTypeString(x *Ctx, pkgRel, typ, field string) string {
 	}
 	return ""
 }
+
+// atoms builds an assignment from atom renderings.
+func atoms(m map[string]bool) paths.Assign {
+	return func(t *paths.Term) (bool, bool) {
+		v, ok := m[t.String()]
+		return v, ok
+	}
+}
+
+// noPath records the obligation "no path of f with the wanted outcome is consistent with A".
+func (x *Ctx) noPath(rule, key string, f *ssa.Function, want paths.Want, A paths.Assign, depth int, desc string) bool {
+	vs, err := x.E.ConsistentPaths(f, want, A, depth)
+	if err != nil {
+		x.C.Unresolved(rule, key, x.pos(f), err.Error())
+		return false
+	}
+	return x.C.Obl(rule, key, x.pos(f), desc, len(vs) == 0, "path(s) that contradict the requirement:\n"+renderPaths(vs, 3))
+}
+
+// somePath records the obligation "at least one path of f with the wanted outcome is consistent with A".
+func (x *Ctx) somePath(rule, key string, f *ssa.Function, want paths.Want, A paths.Assign, depth int, desc string) []paths.VPath {
+	vs, err := x.E.ConsistentPaths(f, want, A, depth)
+	if err != nil {
+		x.C.Unresolved(rule, key, x.pos(f), err.Error())
+		return nil
+	}
+	x.C.Obl(rule, key, x.pos(f), desc, len(vs) > 0, "no such path exists")
+	return vs
+}
+
+// eqs renders the canonical eq atom of two operand renderings.
+func eqs(a, b string) string {
+	if a > b {
+		a, b = b, a
+	}
+	return "eq(" + a + "," + b + ")"
+}
